@@ -8,6 +8,8 @@ if [ -n "$(git -C /repo status --porcelain --untracked-files=no)" ]; then echo "
 if ! git -C /repo apply "$PATCH"; then echo "$ID $PATCH apply-failed"; exit 2; fi
 out=$( (ulimit -v 32000000; timeout 1800 ./check "$ID" "$TIER") 2>&1 ); code=$?
 git -C /repo checkout -- .
+# leave a binary built from the clean tree behind (runs that call harness/target/verif/pv directly must never see the patch)
+./check build >/dev/null 2>&1
 sigs=$(echo "$out" | grep -o "signature=[^ ]*" | sort -u | tr '\n' ' ')
 secs=$(echo "$out" | grep -o "wall_s=[0-9.]*" | tail -1)
 echo "$ID $(basename $(dirname $PATCH))/$(basename $PATCH) tier=$TIER exit=$code $secs $sigs"
